@@ -2,6 +2,7 @@ package codec
 
 import (
 	"fmt"
+	"github.com/b2broker/simplefix-go/fix/encoding"
 	"strconv"
 	"sync"
 	"sync/atomic"
@@ -26,7 +27,7 @@ type C03Case struct {
 	gen.Case
 	Adversarial bool `json:"adversarial"`
 	NonASCII    bool `json:"non_ascii"`
-	Stride      int  `json:"stride"` // 1 = complete neighbourhood
+	Stride      int  `json:"stride"`               // 1 = complete neighbourhood
 	EdgeBlank   bool `json:"edge_blank,omitempty"` // the last field before the CheckSum ends in a blank
 }
 
@@ -127,6 +128,25 @@ func tryVariant(cc *C03Case, v []byte, kind string, pos int, st *damageStats, vs
 			}
 		}
 	}
+	if framedErr != nil && st.variants%8 == 0 && len(*vs) == 0 {
+		// an unmarshaller written as a literal, without the optional required-field Validator: the
+		// integrity check does not depend on it (an intact message panics there on a nil Validator,
+		// which is why only damaged ones are offered)
+		for _, strict := range []bool{true, false} {
+			e, err := build.Empty(&cc.Tpl)
+			if err != nil {
+				return
+			}
+			perr, pan := func() (err error, pan any) {
+				defer func() { pan = recover() }()
+				return encoding.DefaultUnmarshaller{Strict: strict}.Unmarshal(e, v), nil
+			}()
+			if pan == nil && perr == nil {
+				*vs = append(*vs, pbt.V("accepted-damaged:no-validator:"+kind, "DefaultUnmarshaller{Strict: %v} without a Validator accepts the %s at byte %d (%v): %s", strict, kind, pos, framedErr, ref.Show(v)))
+				return
+			}
+		}
+	}
 }
 
 func checkC03(cc *C03Case, rec *evid.Rec) (vs []pbt.Violation) {
@@ -140,8 +160,12 @@ func checkC03(cc *C03Case, rec *evid.Rec) (vs []pbt.Violation) {
 	}
 	base = append([]byte(nil), base...)
 	if err := ref.Framed(base, cc.Tpl.Tags); err != nil {
-		rec.Hist("skipped:base-not-framed") // C01's business
-		return nil
+		// the serializer's own output is not consistently framed (C01's business) - unless the
+		// parser takes it: then the integrity check agrees with the same wrong sum or length
+		var s0 damageStats
+		tryVariant(cc, base, "none (the library's own serialization, which is not consistently framed)", -1, &s0, &vs)
+		rec.Hist("skipped:base-not-framed")
+		return vs
 	}
 	stride := cc.Stride
 	if len(base) > 260 {
